@@ -25,6 +25,14 @@ func (p *Plenc) Marshal(data []byte, value interface{}) ([]byte, error) {
 		if typ.Kind() == reflect.Map {
 			ptr = *(*unsafe.Pointer)(ptr)
 		}
+	} else if (typ.Kind() == reflect.Struct || typ.Kind() == reflect.Array) && typ.Size() == unsafe.Sizeof(ptr) {
+		// A struct or array passed by value whose only content is a single
+		// pointer (a pointer, map, chan or func field) is stored directly in the
+		// interface: the data word is the value, not a pointer to it. Such a
+		// type has the size of a pointer, so take a copy we can point at.
+		v := reflect.New(typ)
+		v.Elem().Set(reflect.ValueOf(value))
+		ptr = v.UnsafePointer()
 	}
 
 	c, err := p.CodecForType(typ)
